@@ -59,7 +59,7 @@ pub fn load<'a>(ctx: &mut Ctx, g: &'a Guarded) -> Option<Multiboot2Header<'a>> {
             ctx.ln(
                 "load",
                 format!(
-                    "VAL magic={} arch={} length={} checksum={} verify={}",
+                    "VAL magic={} arch={} length={} checksum={} verify={} dbg={}",
                     h.header_magic(),
                     // read through the accessor when the stored word is a declared architecture
                     match raw32(g.ptr, 4) {
@@ -68,7 +68,8 @@ pub fn load<'a>(ctx: &mut Ctx, g: &'a Guarded) -> Option<Multiboot2Header<'a>> {
                     },
                     h.length(),
                     h.checksum(),
-                    verify
+                    verify,
+                    dbg_of(matches!(raw32(g.ptr, 4), 0 | 4), &h)
                 ),
             );
             Some(h)
@@ -107,6 +108,20 @@ macro_rules! common {
     }};
 }
 
+/// ` dbg=VAL|PANIC|UB`: `{:?}` of a header-crate object, formatted only when every enum-typed field holds a declared value
+fn dbg_of<T: core::fmt::Debug + ?Sized>(ok: bool, t: &T) -> &'static str {
+    if !ok {
+        "UB"
+    } else if guard(|| format!("{:?}", t)).is_ok() {
+        "VAL"
+    } else {
+        "PANIC"
+    }
+}
+fn enums_ok(p: *const u8) -> bool {
+    raw16(p, 0) <= 10 && raw16(p, 2) <= 1
+}
+
 /// an enum-typed field: read through `acc` when the stored value `v` is a declared discriminant, `UB` otherwise
 fn en_acc(v: u32, hi: u32, acc: impl FnOnce() -> u32) -> String {
     if v <= hi {
@@ -140,86 +155,93 @@ fn raw<T: ?Sized>(t: &T) -> *const u8 {
 // ---- one line per header tag kind (the accessors of a typed tag) -----------------
 
 pub fn hk_end(ctx: &mut Ctx, t: &EndHeaderTag) {
-    ctx.ln("end_tag", common!(t));
+    let body = common!(t);
+    let d = dbg_of(enums_ok(raw(t)), t);
+    ctx.ln("end_tag", format!("{} dbg={}", body, d));
 }
 
 pub fn hk_information_request(ctx: &mut Ctx, g: &Guarded, t: &InformationRequestHeaderTag) {
     let reqs = t.requests();
     let list: Vec<String> = reqs.iter().map(|r| format!("{}", u32::from(*r))).collect();
-    ctx.ln(
-        "information_request_tag",
-        format!(
+    let body = format!(
             "{} requests=@{}+{} [{}]",
             common!(t),
             g.off(reqs.as_ptr()),
             core::mem::size_of_val(reqs),
             list.join(",")
-        ),
-    );
+        );
+    let d = dbg_of(enums_ok(raw(t)), t);
+    ctx.ln("information_request_tag", format!("{} dbg={}", body, d));
 }
 
 pub fn hk_address(ctx: &mut Ctx, t: &AddressHeaderTag) {
-    ctx.ln(
-        "address_tag",
-        format!(
+    let body = format!(
             "{} header_addr={} load_addr={} load_end_addr={} bss_end_addr={}",
             common!(t),
             t.header_addr(),
             t.load_addr(),
             t.load_end_addr(),
             t.bss_end_addr()
-        ),
-    );
+        );
+    let d = dbg_of(enums_ok(raw(t)), t);
+    ctx.ln("address_tag", format!("{} dbg={}", body, d));
 }
 
 pub fn hk_entry_address(ctx: &mut Ctx, t: &EntryAddressHeaderTag) {
-    ctx.ln("entry_address_tag", format!("{} entry_addr={}", common!(t), t.entry_addr()));
+    let body = format!("{} entry_addr={}", common!(t), t.entry_addr());
+    let d = dbg_of(enums_ok(raw(t)), t);
+    ctx.ln("entry_address_tag", format!("{} dbg={}", body, d));
 }
 
 pub fn hk_entry_address_efi32(ctx: &mut Ctx, t: &EntryEfi32HeaderTag) {
-    ctx.ln("entry_address_efi32_tag", format!("{} entry_addr={}", common!(t), t.entry_addr()));
+    let body = format!("{} entry_addr={}", common!(t), t.entry_addr());
+    let d = dbg_of(enums_ok(raw(t)), t);
+    ctx.ln("entry_address_efi32_tag", format!("{} dbg={}", body, d));
 }
 
 pub fn hk_entry_address_efi64(ctx: &mut Ctx, t: &EntryEfi64HeaderTag) {
-    ctx.ln("entry_address_efi64_tag", format!("{} entry_addr={}", common!(t), t.entry_addr()));
+    let body = format!("{} entry_addr={}", common!(t), t.entry_addr());
+    let d = dbg_of(enums_ok(raw(t)), t);
+    ctx.ln("entry_address_efi64_tag", format!("{} dbg={}", body, d));
 }
 
 pub fn hk_console_flags(ctx: &mut Ctx, t: &ConsoleHeaderTag) {
     let p = raw(t);
-    ctx.ln(
-        "console_flags_tag",
-        format!("{} console_flags={}", common!(t), en_acc(raw32(p, 8), 1, || t.console_flags() as u32)),
-    );
+    let body = format!("{} console_flags={}", common!(t), en_acc(raw32(p, 8), 1, || t.console_flags() as u32));
+    let d = dbg_of(enums_ok(raw(t)) && raw32(raw(t), 8) <= 1, t);
+    ctx.ln("console_flags_tag", format!("{} dbg={}", body, d));
 }
 
 pub fn hk_framebuffer(ctx: &mut Ctx, t: &FramebufferHeaderTag) {
-    ctx.ln(
-        "framebuffer_tag",
-        format!("{} width={} height={} depth={}", common!(t), t.width(), t.height(), t.depth()),
-    );
+    let body = format!("{} width={} height={} depth={}", common!(t), t.width(), t.height(), t.depth());
+    let d = dbg_of(enums_ok(raw(t)), t);
+    ctx.ln("framebuffer_tag", format!("{} dbg={}", body, d));
 }
 
 pub fn hk_module_align(ctx: &mut Ctx, t: &ModuleAlignHeaderTag) {
-    ctx.ln("module_align_tag", common!(t));
+    let body = common!(t);
+    let d = dbg_of(enums_ok(raw(t)), t);
+    ctx.ln("module_align_tag", format!("{} dbg={}", body, d));
 }
 
 pub fn hk_efi_boot_services(ctx: &mut Ctx, t: &EfiBootServiceHeaderTag) {
-    ctx.ln("efi_boot_services_tag", common!(t));
+    let body = common!(t);
+    let d = dbg_of(enums_ok(raw(t)), t);
+    ctx.ln("efi_boot_services_tag", format!("{} dbg={}", body, d));
 }
 
 pub fn hk_relocatable(ctx: &mut Ctx, t: &RelocatableHeaderTag) {
     let p = raw(t);
-    ctx.ln(
-        "relocatable_tag",
-        format!(
+    let body = format!(
             "{} min_addr={} max_addr={} align={} preference={}",
             common!(t),
             t.min_addr(),
             t.max_addr(),
             t.align(),
             en_acc(raw32(p, 20), 2, || t.preference() as u32)
-        ),
-    );
+        );
+    let d = dbg_of(enums_ok(raw(t)) && raw32(raw(t), 20) <= 2, t);
+    ctx.ln("relocatable_tag", format!("{} dbg={}", body, d));
 }
 
 pub fn dump_getters(ctx: &mut Ctx, g: &Guarded, h: &Multiboot2Header) {
